@@ -114,11 +114,19 @@ func (self Value) GetByPath(pathes ...Path) Value {
 	var err error
 
 	for i, path := range pathes {
+		// the path must fit both the shape of the value and its descriptor
+		if desc == nil || !pathFitsType(path.t, tt) || (tt == thrift.STRUCT && desc.Struct() == nil) {
+			return errValue(meta.ErrDismatchType, fmt.Sprintf("%dth path %s does not fit a %s value", i, path, tt), nil)
+		}
 		switch path.t {
 		case PathFieldId:
 			id := path.id()
+			f := desc.Struct().FieldById(id)
+			if f == nil {
+				return errValue(meta.ErrUnknownField, fmt.Sprintf("field id %d is not defined in IDL", id), nil)
+			}
 			tt, start, err = searchFieldId(&p, id)
-			desc = desc.Struct().FieldById(id).Type()
+			desc = f.Type()
 			isList = tt == thrift.LIST
 		case PathFieldName:
 			id := path.str()
@@ -154,6 +162,9 @@ func (self Value) GetByPath(pathes ...Path) Value {
 		}
 	}
 
+	if desc == nil {
+		return errValue(meta.ErrDismatchType, "the path does not fit the type descriptor", nil)
+	}
 	if err := p.Skip(desc.Type(), UseNativeSkipForGet); err != nil {
 		return errValue(meta.ErrRead, "", err)
 	}
